@@ -125,6 +125,8 @@ def gen_scenario(r, max_cells, entry=None):
     if entry in T.QUANT_TOOLS and entry != "median":
         m = r.choice([1, 1, 2, 3, 5])
         sc["quants"] = m
+        # the LIST of quantiles may repeat an entry, be unsorted or hold nearly equal entries: every entry is a sub-query
+        sc["qform"] = r.choice(["distinct", "repeated", "repeated", "all-equal", "unsorted", "near-equal"])
         sc["nan_data"] = r.chance(0.1)
     else:
         sc["quants"] = 1
@@ -377,6 +379,23 @@ def spoil(sc, arr, rr):
     return arr
 
 
+def quantile_list(sc):
+    m = sc["quants"]
+    if m <= 1:
+        return 0.5
+    form = sc.get("qform", "distinct")
+    base = [0.5, 0.1, 0.9, 0.3, 0.7][:m]
+    if form == "repeated":
+        base = ([0.25, 0.5, 0.5, 0.9, 0.5] if m > 2 else [0.5, 0.5])[:m]
+    elif form == "all-equal":
+        base = [0.5] * m
+    elif form == "unsorted":
+        base = sorted(base, reverse=True)
+    elif form == "near-equal":
+        base = ([0.5, 0.5 + 1e-12, 0.5 - 1e-12, 0.25, 0.25 + 1e-12])[:m]
+    return base
+
+
 def tool_call(sc, acc_kw):
     entry = sc["entry"]
     eps = sc["eps"]
@@ -403,11 +422,10 @@ def tool_call(sc, acc_kw):
         kw["bounds"] = (0.0, 1.0)
     if sc.get("dtype"):
         kw["dtype"] = float
-    if entry == "quantile":
-        q = [0.5, 0.1, 0.9, 0.3, 0.7][:sc["quants"]] if sc["quants"] > 1 else 0.5
-        return lambda: fn(arr, q, **kw)
-    if entry == "percentile":
-        q = [50, 10, 90, 30, 70][:sc["quants"]] if sc["quants"] > 1 else 50
+    if entry in ("quantile", "percentile"):
+        q = quantile_list(sc)
+        if entry == "percentile":
+            q = [x * 100 for x in q] if isinstance(q, list) else q * 100
         return lambda: fn(arr, q, **kw)
     return lambda: fn(arr, **kw)
 
@@ -546,6 +564,7 @@ def verdict(sc, res):
            f"state={sc['state']} mode={sc['mode']}{'+nested-with-block' if sc.get('nested_with') else ''} " \
            f"decoy-default={sc['decoy']} prior={sc['prior']} accountant={sc.get('acc_kind', 'plain')}" \
            f"{' data=' + sc['bad_data'] if sc.get('bad_data') else ''}" \
+           f"{' quantile-list=' + str(quantile_list(sc)) if sc.get('quants', 1) > 1 else ''}" \
            f"{' config=' + str(sc['config']) if sc.get('config') else ''}"
     if res.get("caller_list_changed"):
         return (f"C09:{entry}:caller-list-modified", f"{desc}: the list the target was restored from (spent_budget=lst) was "
@@ -668,7 +687,7 @@ def sum_eps(snap):
 
 def key_of(sc, res):
     return (sc["entry"], sc["kind"], sc.get("layout"), sc.get("cells"), sc.get("quants"), sc["state"], sc["mode"], sc["decoy"],
-            res["kind"], len(sc["prior"]) > 0, bool(sc.get("nested_with")), sc.get("acc_kind"), str(sc.get("config")), sc.get("bad_data"))
+            res["kind"], len(sc["prior"]) > 0, bool(sc.get("nested_with")), sc.get("acc_kind"), str(sc.get("config")), sc.get("bad_data"), sc.get("qform"))
 
 
 FOREST_WITNESS = {"entry": "RandomForestClassifier", "kind": "fit", "eps": 1.0, "state": "more", "mode": "explicit",
